@@ -3,7 +3,8 @@ report, with what the model says about it.  `python3 -m vplib.props.c11_sites` r
 from this table (the .v file is the one the kernel checks; c11.py verifies the two are in sync).
 
 disposition:
-  once / lock / env / clock : modelled in Model/Globals.v (cell or step named in `model`)
+  once / lock / env / clock : modelled in Model/Globals.v (cell or step named in `model`); rows of kind `under-lock`
+                    list what a function does between taking a static lock and returning that could panic (poison)
   inv:<pattern>   : iteration result is permutation-invariant; `model` names the generic lemma of Proofs/PermProofs.v
   refuted:<pattern>: order reaches output; `finding` names the known finding
   nothash         : the scanner's name-based approximation hit something that is not a hash container here
@@ -25,6 +26,12 @@ SITES = [
     (P + "codegen/ast.rs", "once", "VALID_PRQL_IDENT", "once", "CRegexPrqlIdent", "", ""),
     (P + "debug/log.rs", "clock", "log_start:SystemTime", "nooutput", "", "", "timestamp stored in the debug log only"),
     (P + "debug/log.rs", "lock", "CURRENT_LOG", "lock", "g_log / g_poisoned", "", "log slot of Model/Globals.v; log_start no longer asserts (F10h fixed by 9396557); LogSuppressLock::drop saturates (F10j fixed by 2f50a3c): no step can poison the lock (c11_concurrent_log_api_independent)"),
+    (P + "debug/log.rs", "under-lock", "drop:CURRENT_LOG.write:saturating_sub", "lock", "SSuppressDec", "", "LogSuppressLock::drop: suppress_count = suppress_count.saturating_sub(1) -- cannot panic under the lock (was `-= 1`: F10j, fixed by 2f50a3c); Globals.gstep mirrors the saturation (Nat.pred)"),
+    (P + "debug/log.rs", "under-lock", "log_entry:CURRENT_LOG.write", "lock", "SLogEntry", "", "push under the write lock; the entry closure only serialises an IR"),
+    (P + "debug/log.rs", "under-lock", "log_finish:CURRENT_LOG.write", "lock", "SLogFinish", "", "lock.take()"),
+    (P + "debug/log.rs", "under-lock", "log_is_enabled:CURRENT_LOG.read", "lock", "SLogEnabled", "", "read lock, suppress_count == 0"),
+    (P + "debug/log.rs", "under-lock", "log_start:CURRENT_LOG.write", "lock", "SLogStart", "", "write().unwrap_or_else(into_inner): works on a poisoned lock; no assert under the lock any more (was F10h)"),
+    (P + "debug/log.rs", "under-lock", "new:CURRENT_LOG.write:+=", "lock", "SSuppressInc", "", "LogSuppressLock::new: suppress_count += 1 (overflow needs usize::MAX live guards: not modelled)"),
     (P + "debug/render_html.rs", "hash-iter", "write_decl:names.iter +sorted", "nooutput", "", "", "HTML rendering of the debug log"),
     (P + "debug/render_html.rs", "hash-iter", "write_repr_decl:names.iter +sorted", "nooutput", "", "", "HTML rendering of the debug log"),
     (P + "debug/render_html.rs", "hash-iter", "write_repr_prql:source_ids.iter", "nooutput", "", "", "HTML rendering of the debug log"),
